@@ -19,11 +19,11 @@ for p in props:
         "level_claimed": {"category": "proof", "text": LEVEL_TEXT[pid], "design_ref": f"DESIGN.md section 4 ({pid}) and section 8"},
         "level_note": "Trusted base: Lean 4.33 kernel (axioms propext, Classical.choice, Quot.sound only; no native_decide/bv_decide/sorry); the hand-written "
                       "Lean model is tied to /repo by the correspondence (differential testing bounded by the generator; distribution in evidence) and by the "
-                      "translators for tables / tableau / solver and interpolation formulas / structural methods (compartment and flow matching, stratify) / C19 skeleton; harness/jaxfix.py; float rounding not modelled (1e-9). " + "; ".join(getattr(mod, "ASSUMPTIONS", [])),
+                      "translators for tables / tableau / solver and interpolation formulas / structural methods (compartment and flow matching, stratify) / right-hand-side array programs (get_flow_rates, multipliers, application matrix) / C19 skeleton; harness/jaxfix.py; float rounding not modelled (1e-9). " + "; ".join(getattr(mod, "ASSUMPTIONS", [])),
         "technique": "Lean 4 theorems (" + ", ".join(mod.THEOREM_FILES) + ") + correspondence / oracle on the real code",
     })
 man = {"version": 1,
-       "setup_cmd": "cd /verif && python3 harness/translate/gen_tables.py && python3 harness/translate/gen_arith.py && python3 harness/translate/gen_struct.py && python3 harness/translate/gen_skeleton.py --lean-root lean && cd lean && lake build Summer driver",
+       "setup_cmd": "cd /verif && python3 harness/translate/gen_tables.py && python3 harness/translate/gen_arith.py && python3 harness/translate/gen_struct.py && python3 harness/translate/gen_rates.py && python3 harness/translate/gen_skeleton.py --lean-root lean && cd lean && lake build Summer driver",
        "hooks": {"guard": "MONASH_EMU_SUMMER2_VERIF",
                  "enable": "no source hooks are needed: the harness reads public attributes (model.flows, model.compartments, runner.impl_dict['one_step']) and loads an external NumPy-2/JAX compat layer (harness/jaxfix.py)",
                  "baseline_off_cmd": "cd /repo && /venv/bin/python -m pytest -ra -q -p no:cacheprovider --timeout=900 --continue-on-collection-errors",
